@@ -1,8 +1,48 @@
-import BridgeVerif.Model.Abort
+import BridgeVerif.Lemmas.Abort
+/-!
+# C13 — An aborted session still leaves a well-formed log of the completed boards
+
+`Server.run` abandons a session by raising out of the board loop — at ANY point of the main thread's program
+(`pre` below is an arbitrary prefix of it: the faults enumerated by the correspondence run — illegal / malformed
+call, malformed card, card not held, operator interrupt — are particular prefixes).  Leaving the `with` block
+closes the writer (`abortedMain`).
+-/
 namespace Bridge.C13
-theorem abort_closes_writer : True := by sorry
-theorem aborted_log_is_wellformed : True := by sorry
-theorem aborted_log_reads_back : True := by sorry
-theorem unclosed_log_not_json_old : True := by sorry
-theorem session_records_are_wellformed : True := by sorry
+
+/-- wherever the main thread is when the session is abandoned (after the log has been opened), what it has
+emitted — closing included — is: open, the records of the first `k` boards in order, close; `k` is the number of
+boards whose record had been written, i.e. the boards finished before the abort -/
+theorem abort_closes_writer (sc : Scenario) (h : sc.boards ≠ []) (pre rest : List (SAct Text LogOp))
+    (hp : sessionProg sc .main = pre ++ rest) (ho : pre.any isOpenAct = true) :
+    ∃ k, k ≤ sc.boards.length ∧
+      emitsOf (abortedMain pre) =
+        LogOp.open :: ((sc.boards.take k).map fun bd => LogOp.write (recordOf sc bd.1 bd.2)) ++ [LogOp.close] ∧
+      -- k counts exactly the records already written
+      k = ((emitsOf pre).filter fun o => match o with | .write _ => true | _ => false).length := by
+  exact abort_emits sc h pre rest hp ho
+
+/-- the file then holds the complete, closed log of those boards: the text `JsonLogWriter` writes for them -/
+theorem aborted_log_is_wellformed (recs : List BoardRecord) :
+    logFileText (LogOp.open :: recs.map LogOp.write ++ [LogOp.close]) = logText (recs.map entryOf) := by
+  exact logFileText_closed recs
+
+/-- … one JSON document that the log parser reads back as exactly those boards, each of them whole (C12) -/
+theorem aborted_log_reads_back (recs : List BoardRecord) (hwf : ∀ r ∈ recs, (entryOf r).WF) :
+    jsonLoad (logFileText (LogOp.open :: recs.map LogOp.write ++ [LogOp.close])) = some (logDoc (recs.map entryOf)) ∧
+    parseBoardLogs? (logFileText (LogOp.open :: recs.map LogOp.write ++ [LogOp.close])) =
+      some ((recs.map entryOf).map LogEntry.readBack) := by
+  exact aborted_log_reads recs hwf
+
+/-- the records of a session with conforming players and proper deals ARE well-formed writer arguments -/
+theorem session_records_are_wellformed (sc : Scenario) (b : BoardSetting) (d : Decisions)
+    (hdeal : PartialDeal b.deal) (hc : ConformingAuction b d) (hp : ConformingPlay b d) :
+    (entryOf (recordOf sc b d)).WF := by
+  exact entryOf_recordOf_wf sc b d hdeal hc hp
+
+/-- before the repair (writer closed on the normal path only) the file of an abandoned session was NOT a JSON
+document, whatever had been completed -/
+theorem unclosed_log_not_json_old (recs : List BoardRecord) (hwf : ∀ r ∈ recs, (entryOf r).WF) :
+    jsonLoad (logFileText (LogOp.open :: recs.map LogOp.write)) = none := by
+  exact unclosed_log_not_json recs hwf
+
 end Bridge.C13
